@@ -11,7 +11,7 @@ ASSUMPTIONS = ["caller-supplied read callbacks fill the buffer unless at end of 
                "short reads are explored only in the scan phase, where the code tolerates them",
                "for corpus archives the members are those of a reference run over a seekable file (the property is relative)",
                "TLC/SANY/CommunityModules trusted"]
-KINDS = ["path", "FILE", "pipe", "drip", "cb", "cbns"]
+KINDS = ["path", "FILE", "pipe", "drip", "cb", "cbk", "cbns"]
 SIGS = [b"-lh", b"-lz", b"-pm"]
 
 
@@ -111,6 +111,18 @@ def reader_jobs(rng, sc, tier, ev, drv):
         a = os.path.join(sc, "g%d.lzh" % i)
         open(a, "wb").write(b"".join(m.raw() for m in ms) + b"\0")
         archives.append(a)
+    # an archive stored inside an archive: the outer member's data begins with something that parses as a header, so a reader that
+    # goes on after a failed skip finds members that are not there.  Cut at many places.
+    inner = b"".join(m.raw() for m in [RG.G("file", b"inner.txt", data=b"inner data " * 9, level=1), RG.G("file", b"in2", data=b"2", level=0)]) + b"\0"
+    nested = [RG.G("file", b"inner.lzh", data=inner, level=1), RG.G("file", b"after.txt", data=b"after the nested archive\n", level=2)]
+    nraw = b"".join(m.raw() for m in nested) + b"\0"
+    na = os.path.join(sc, "nested.lzh")
+    open(na, "wb").write(nraw)
+    archives.append(na)
+    for cut in range(30, len(nraw), 5 if tier == "quick" else 1):
+        t = os.path.join(sc, "nested_cut%d.lzh" % cut)
+        open(t, "wb").write(nraw[:cut])
+        archives.append(t)
     # truncations of some of them
     for f in rng.sample(archives, 8 if tier == "quick" else 60):
         b = open(f, "rb").read()
